@@ -23,7 +23,7 @@ def judge_factory(h, part: core.Part, PB, TB, extra_case=None, max_points=4000, 
         for t in x.threads:
             if t.error is not None and not getattr(h, "allow_thread_errors", False):
                 probs.append((f"{h.sig}|thread-exception|{type(t.error).__name__}", f"exception escaped thread {t.name}: {t.error!r}"))
-        key = (h.name, tuple(x.choices))
+        key = (h.name + ("|coarse" if getattr(h, "lines_only", False) else ""), tuple(x.choices))
         outcome = h.outcome(x) if hasattr(h, "outcome") else x.outcome
         nontrivial = h.nontrivial(x) if hasattr(h, "nontrivial") else (x.switches > 0 and len(x.threads) > 2)
         part.case(key, nontrivial, outcome=(h.name, outcome), sample=None)
@@ -35,20 +35,31 @@ def judge_factory(h, part: core.Part, PB, TB, extra_case=None, max_points=4000, 
             if x1.trace != x.trace or x2.trace != x.trace:
                 raise ilv.EngineError(f"non-deterministic replay of {h.name} {x.choices}")
             for sig, what in probs:
-                part.violation(sig, f"{h.name}: {what}", {"harness": h.name, "choices": list(x.choices), "PB": PB, "TB": TB, "horizon": horizon, "max_points": max_points},
+                part.violation(sig, f"{h.name}: {what}", {"harness": h.name, "choices": list(x.choices), "PB": PB, "TB": TB, "horizon": horizon, "max_points": max_points, "lines_only": bool(getattr(h, "lines_only", False))},
                                events=[list(map(str, e)) for e in x.events][:60], confirmed=bool(p1 or x1.outcome != "quiescent") and bool(p2 or x2.outcome != "quiescent"))
 
     return judge
 
 
-def explore_all(part: core.Part, harnesses, shard, nshards, PB, TB, deadline, max_points=4000, horizon=50.0):
-    """Explore every harness with index = shard (mod nshards)."""
+def explore_all(part: core.Part, harnesses, shard, nshards, PB, TB, deadline, max_points=4000, horizon=50.0, coarse_pb=None):
+    """Explore every harness with index = shard (mod nshards).  coarse_pb: in addition explore each harness again with that
+    (higher) preemption bound in the coarse mode of ilv (switching only at line boundaries of the focus files, at explicit harness
+    points and where threads block/start/end) - a sub-space of the normal mode's schedules that stays small at PB 2."""
     for i, h in enumerate(harnesses):
         if i % nshards != shard:
             continue
         if time.time() > deadline:
             part.complete = False
             return
+        if coarse_pb is not None and getattr(h, "focus", None) and not getattr(h, "lines_only", False):
+            h.lines_only = True
+            before = part.counters.get("executions", 0)
+            try:
+                explore_all(part, [h], 0, 1, coarse_pb, TB, deadline, max_points, horizon)
+            finally:
+                h.lines_only = False
+            part.count("coarse_executions", part.counters.get("executions", 0) - before)
+            part.counters["harnesses"] = part.counters.get("harnesses", 1) - 1
         st, left = ilv.explore(h, PB, TB, judge_factory(h, part, PB, TB, None, max_points, horizon), deadline=deadline, max_points=max_points, horizon=horizon)
         if not st.complete:
             part.complete = False
@@ -75,6 +86,7 @@ def finish_cov(ctx: core.Ctx, agg: core.Part, extra_states: int = 0, extra_trans
 
 
 def replay_harness(h, case):
+    h.lines_only = bool(case.get("lines_only", getattr(h, "lines_only", False)))
     x = ilv.execute(h, list(case["choices"]), case.get("max_points", 4000), case.get("horizon", 50.0))
     print("outcome:", x.outcome, "choices:", x.choices)
     for e in x.events:
